@@ -70,6 +70,7 @@ class AsyncTLSStreamTransport(AsyncStreamTransport):
     __incoming_reader: _IncomingDataReader = dataclasses.field(init=False)
     __transport_send_lock: ILock = dataclasses.field(init=False)
     __transport_recv_lock: ILock = dataclasses.field(init=False)
+    __write_bio_flushers: int = dataclasses.field(init=False, default=0)
     __closing: bool = dataclasses.field(init=False, default=False)
     __closed: IEvent = dataclasses.field(init=False)
     __tls_extra_atributes: Mapping[Any, Callable[[], Any]] = dataclasses.field(init=False)
@@ -283,13 +284,14 @@ class AsyncTLSStreamTransport(AsyncStreamTransport):
         # NOTE: A read operation (wait_for_flush=False) never waits for the send lock. A writer can hold it as long as
         #       the peer does not read, and the peer may be waiting for us to read first. The lock owner flushes
         #       everything which has been added in the meantime before releasing it.
+        #       The lock itself cannot tell: it is not "locked" while it is handed over to the next waiting task.
         while True:
             try:
                 result = ssl_object_method(*args)
             except _ssl_module.SSLWantReadError:
                 try:
                     # Flush any pending writes first
-                    if self._write_bio.pending and (wait_for_flush or not self.__transport_send_lock.locked()):
+                    if self._write_bio.pending and (wait_for_flush or not self.__write_bio_flushers):
                         await self.__flush_write_bio()
 
                     async with self.__transport_recv_lock:
@@ -306,15 +308,19 @@ class AsyncTLSStreamTransport(AsyncStreamTransport):
                 raise
             else:
                 # Flush any pending writes first
-                if self._write_bio.pending and (wait_for_flush or not self.__transport_send_lock.locked()):
+                if self._write_bio.pending and (wait_for_flush or not self.__write_bio_flushers):
                     await self.__flush_write_bio()
 
                 return result
 
     async def __flush_write_bio(self) -> None:
-        async with self.__transport_send_lock:
-            while self._write_bio.pending:
-                await self._transport.send_all(self._write_bio.read())
+        self.__write_bio_flushers += 1
+        try:
+            async with self.__transport_send_lock:
+                while self._write_bio.pending:
+                    await self._transport.send_all(self._write_bio.read())
+        finally:
+            self.__write_bio_flushers -= 1
 
     @property
     @_utils.inherit_doc(AsyncStreamTransport)
